@@ -596,7 +596,7 @@ def run(ctx, replay=None):
             return
         specs = [replay["spec"]]
     else:
-        specs = [gen_spec(rng) for _ in range(ctx.n(240, 2400))]
+        specs = [gen_spec(rng) for _ in range(ctx.n(400, 3000))]
     cases_k, cases_g, meta, kmeta, jit_cases, jit_meta = [], [], [], [], [], []
     import warnings
     with warnings.catch_warnings():
